@@ -29,6 +29,7 @@ int __real_lstat(const char *, struct stat *);
 int __real_stat(const char *, struct stat *);
 char *__real_getenv(const char *);
 unsigned long __real_getauxval(unsigned long);
+unsigned __real_alarm(unsigned);
 int __real_nanosleep(const struct timespec *, struct timespec *);
 int __real_usleep(useconds_t);
 unsigned __real_sleep(unsigned);
@@ -190,6 +191,9 @@ struct Kernel {
 	bool sigchld_ign = false;      // SIGCHLD disposition of the driver
 	uint64_t sigign = 0;           // other signals the driver ignores (inherited or set by itself); children inherit them
 	bool tty_wait = false;         // some tool is blocked reading a terminal that stays open
+	long alarm_at = -1;            // simulated step at which SIGALRM is due (alarm()), -1: none; one second = 40 steps
+	void (*alarm_handler)(int) = SIG_DFL;
+	bool alarm_restart = false;    // handler installed with SA_RESTART (signal() under _POSIX_C_SOURCE without _DEFAULT_SOURCE is not)
 	std::map<std::string, std::string> symlinks;  // name -> target (one level)
 	std::map<std::string, std::string> symlink_of;  // target -> the name that pointed to it at the start
 	int exec_lookup(const std::string &path);
@@ -750,6 +754,21 @@ static pid_t do_wait(pid_t want, int *st, int opts) {
 	if (K->driver_phase == 0) K->driver_phase = 1;
 	for (;;) {
 		K->record_abs();
+		if (K->alarm_at >= 0 && K->step >= K->alarm_at) {
+			K->alarm_at = -1;
+			K->probe("SIGALRM_delivered_to_driver_in_wait");
+			K->logf("[%d] SIGALRM", K->step);
+			if (K->alarm_handler == SIG_DFL) {
+				// default action: the driver is killed, nothing of its own runs any more
+				K->exit_status = 128 + SIGALRM;
+				K->logf("[%d] driver killed by SIGALRM", K->step);
+				longjmp(K->jb, 1);
+			}
+			if (K->alarm_handler != SIG_IGN) {
+				K->alarm_handler(SIGALRM);
+				if (!K->alarm_restart) { errno = EINTR; K->logf("[%d] wait -> EINTR", K->step); return -1; }
+			}
+		}
 		std::vector<int> z, r;
 		bool any = false;
 		for (size_t i = 1; i < K->procs.size(); i++) {
@@ -788,6 +807,7 @@ static pid_t do_wait(pid_t want, int *st, int opts) {
 			}
 			return p.pid;
 		}
+		if (r.empty() && K->alarm_at >= 0) { if (K->step < K->alarm_at) K->step = (int)K->alarm_at; continue; }  // nothing can run: time passes until the alarm
 		if (r.empty()) K->do_hang("driver blocked in wait, no zombie, every child blocked on pipe I/O");
 		K->step_proc(K->procs[r[K->ch.pick((uint32_t)r.size())]]);
 	}
@@ -859,6 +879,7 @@ int __wrap_sigaction(int sig, const struct sigaction *act, struct sigaction *old
 	K->enter("sigaction");
 	bool ign = sig == SIGCHLD ? K->sigchld_ign : (sig > 0 && sig < 64 && (K->sigign >> sig & 1));
 	if (old) { memset(old, 0, sizeof *old); old->sa_handler = ign ? SIG_IGN : SIG_DFL; }
+	if (act && sig == SIGALRM) { K->alarm_handler = act->sa_handler; K->alarm_restart = (act->sa_flags & SA_RESTART) != 0; }
 	if (act && sig == SIGCHLD) K->sigchld_ign = act->sa_handler == SIG_IGN;
 	else if (act && sig > 0 && sig < 64) { if (act->sa_handler == SIG_IGN) K->sigign |= 1ULL << sig; else K->sigign &= ~(1ULL << sig); }
 	K->logf("[%d] sigaction(%d)", K->step, sig);
@@ -876,6 +897,7 @@ sighandler_fn __wrap_signal(int sig, sighandler_fn h) {
 	K->enter("signal");
 	bool ign = sig == SIGCHLD ? K->sigchld_ign : (sig > 0 && sig < 64 && (K->sigign >> sig & 1));
 	sighandler_fn prev = ign ? SIG_IGN : SIG_DFL;
+	if (sig == SIGALRM) { K->alarm_handler = h; K->alarm_restart = false; }  // System V semantics: the interrupted call is not restarted
 	if (sig == SIGCHLD) K->sigchld_ign = h == SIG_IGN;
 	else if (sig > 0 && sig < 64) { if (h == SIG_IGN) K->sigign |= 1ULL << sig; else K->sigign &= ~(1ULL << sig); }
 	K->logf("[%d] signal(%d)", K->step, sig);
@@ -967,6 +989,16 @@ unsigned long __wrap_getauxval(unsigned long type) {
 	fn = a0.find('/') != std::string::npos ? a0 : "/usr/local/bin/" + (a0.empty() ? std::string("cproc") : a0);
 	K->probe("driver_read_AT_EXECFN");
 	return (unsigned long)(uintptr_t)fn.c_str();
+}
+
+// alarm(): SIGALRM for the driver at a simulated time; delivered while the driver is blocked in wait()
+unsigned __wrap_alarm(unsigned s) {
+	if (!IN_DRIVER) return __real_alarm(s);
+	K->enter("alarm");
+	unsigned left = K->alarm_at >= 0 && K->alarm_at > K->step ? (unsigned)((K->alarm_at - K->step + 39) / 40) : 0;
+	K->alarm_at = s ? K->step + 40L * s : -1;
+	K->logf("[%d] alarm(%u)", K->step, s);
+	return left;
 }
 
 // sleeping is a scheduling point and costs simulated time; nothing else
